@@ -94,6 +94,8 @@ type c12Signed struct {
 	// base64 string. The library refuses such messages wholesale, which the statement neither
 	// demands nor forbids, so completeness is not judged for them (soundness still is).
 	Odd  bool
+	// OddHard: the "signatures" member itself is not an object (nothing can be read from it)
+	OddHard bool
 	Sigs map[string]map[string][]byte // signer -> key ID -> decoded signature (well-formed entries)
 	IDs  map[string][]string          // signer -> every key ID named, in source order
 }
@@ -117,7 +119,7 @@ func c12Analyse(msg []byte) c12Signed {
 		return a
 	}
 	if sv.K != 'o' {
-		a.Odd = true
+		a.Odd, a.OddHard = true, true
 		return a
 	}
 	for _, sm := range sv.O {
